@@ -290,6 +290,76 @@ def deliveries(doc: dict, tmp: str):
     yield attempt("s3/yaml", lambda: S3PolicySource("s3://b/dir/p.yml", client=FakeS3(ytxt.encode()), validate_schema=False).load())
 
 
+def _hint_doc(lit) -> dict:
+    return {"algorithm": "deny-overrides", "rules": [{"id": "r", "effect": "permit", "actions": ["read"], "resource": {"type": "doc"},
+                                                       "condition": {"==": [{"attr": "context.n"}, lit]}}]}
+
+
+# JSON texts that a YAML parser reads DIFFERENTLY from a JSON parser (PyYAML: a float needs a dot; JSON escapes; duplicate-looking
+# scalars) next to texts both read alike: which parser gets the text is decided by the hints alone, on every path
+HINT_TEXTS = [json.dumps(_hint_doc(1e16)), json.dumps(_hint_doc(1e-07)), json.dumps(_hint_doc(100.0)).replace("100.0", "1e2"),
+              json.dumps(_hint_doc(-1e+22)), json.dumps(_hint_doc(1.5)), json.dumps(_hint_doc("x")), json.dumps(_hint_doc(7)),
+              json.dumps(_hint_doc("\u00e9\t")), json.dumps(_hint_doc(None)), json.dumps(_hint_doc([1e16, "1e16"]))]
+HINT_COMBOS = [("application/x-yaml", "http://h/p"), ("text/yaml; charset=utf-8", "http://h/p.json"), (None, "http://h/p.yaml"),
+               (None, "http://h/dir/p.YML"), ("application/json", "http://h/p.yaml"), (None, "http://h/p"), ("text/plain", "http://h/p.yml")]
+
+
+def same_text_same_hints(run: lib.Run) -> None:
+    """ONE text, ONE set of hints, every path: which parser reads a body is decided by (explicit format, content type, name) — C17: "format
+    chosen by explicit hint, then content type, then file extension, else JSON" — so a body delivered over HTTP with a content type / URL
+    must come out as `parse_policy_text` makes it under the same content type / name, whether or not the response object also offers its
+    own `.json()` (every real `requests.Response` does), and a file / an S3 object of that name likewise.  The texts are JSON texts that
+    a YAML parser reads differently (`1e+16` is a float to json and a string to PyYAML) next to harmless ones."""
+    fake = types.ModuleType("requests")
+    saved = sys.modules.get("requests")
+
+    def outcome(f):
+        try:
+            return canon_unordered(f())
+        except Exception as e:  # noqa: BLE001
+            return "raised:" + type(e).__name__
+    try:
+        with tempfile.TemporaryDirectory() as tmp:
+            for ti, text in enumerate(HINT_TEXTS):
+                for ctype, url in HINT_COMBOS:
+                    want = outcome(lambda: rloader.parse_policy_text(text, filename=url, content_type=ctype))
+                    got = {}
+                    for wj in (True, False):
+                        fake.get = lambda u, headers=None, timeout=None, wj=wj: FakeResp(text, ctype, wj)
+                        sys.modules["requests"] = fake
+                        got["http, response " + ("with" if wj else "without") + " .json()"] = outcome(lambda: HTTPPolicySource(url).load())
+                    if ctype is None:
+                        name = url.rsplit("/", 1)[-1]
+                        fp = os.path.join(tmp, f"{ti}-{name}")
+                        with open(fp, "w", encoding="utf-8") as f:
+                            f.write(text)
+                        want_file = outcome(lambda: rloader.parse_policy_text(text, filename=fp))
+                        got_file = outcome(lambda: FilePolicySource(fp).load())
+                        got_s3 = outcome(lambda: S3PolicySource("s3://b/" + name, client=FakeS3(text.encode()), validate_schema=False).load())
+                        want_s3 = outcome(lambda: rloader.parse_policy_bytes(text.encode(), filename=name))
+                        if got_file != want_file:
+                            got["file " + name] = got_file
+                            want = want_file
+                        if got_s3 != want_s3:
+                            got["s3 key " + name] = got_s3
+                            want = want_s3
+                    for path, g in got.items():
+                        run.case(["same-text-same-hints", ti, ctype, url, path], True)
+                        run.count("same-text-same-hints")
+                        if g != want:
+                            run.spec_failures.append({"part": "same-text-same-hints", "text": text, "content_type": ctype, "name": url, "path": path,
+                                                      "delivered": g[:600] if isinstance(g, str) else g,
+                                                      "parse_policy_text_under_the_same_hints": want[:600] if isinstance(want, str) else want,
+                                                      "spec": "the same text under the same format hints (content type, name) is read by another "
+                                                              "parser on this path than on parse_policy_text: the policies differ"})
+                            return
+    finally:
+        if saved is not None:
+            sys.modules["requests"] = saved
+        else:
+            sys.modules.pop("requests", None)
+
+
 class _Resp304:
     status_code = 304
     text = ""
@@ -613,6 +683,8 @@ def check(run: lib.Run, audit: dict) -> int:
     check_translated_cli(run, audit, violations)
     check_detect(run)
     check_paths_and_tools(run, audit)
+    if not run.spec_failures:
+        same_text_same_hints(run)
     check_defaults(run, audit, violations, scale=run.boost)
     if run.disagreements and not run.spec_failures and not violations:
         check_defaults(run, audit, violations, scale=4)
